@@ -34,7 +34,7 @@ fn ordered(x: f64) -> i128 {
         -((b & !(1u64 << 63)) as i128)
     }
 }
-fn fclose(a: f64, b: f64) -> bool {
+pub fn fclose(a: f64, b: f64) -> bool {
     if a.to_bits() == b.to_bits() || a == b || (a.is_nan() && b.is_nan()) {
         return true;
     }
@@ -78,6 +78,60 @@ pub fn a2f(a: &Array2<f64>) -> Vec<Vec<V>> {
     a.rows().into_iter().map(|r| r.iter().map(|x| V::F(*x)).collect()).collect()
 }
 
+/// content for a target buffer a caller hands to `predict_inplace`: any junk of the right shape
+pub trait Junk {
+    fn junk(&mut self, salt: usize);
+}
+impl Junk for Array1<f64> {
+    fn junk(&mut self, salt: usize) {
+        for (i, v) in self.iter_mut().enumerate() {
+            *v = if salt == 1 && i % 3 == 0 { f64::NAN } else { -7.25 - 1.5 * i as f64 + 1e3 * salt as f64 };
+        }
+    }
+}
+impl Junk for Array2<f64> {
+    fn junk(&mut self, salt: usize) {
+        for (i, v) in self.iter_mut().enumerate() {
+            *v = if salt == 1 && i % 3 == 0 { f64::NAN } else { -7.25 - 1.5 * i as f64 + 1e3 * salt as f64 };
+        }
+    }
+}
+impl Junk for Array1<f32> {
+    fn junk(&mut self, salt: usize) {
+        for (i, v) in self.iter_mut().enumerate() {
+            *v = if salt == 1 && i % 3 == 0 { f32::NAN } else { -7.25 - 1.5 * i as f32 + 1e3 * salt as f32 };
+        }
+    }
+}
+impl Junk for Array2<f32> {
+    fn junk(&mut self, salt: usize) {
+        for (i, v) in self.iter_mut().enumerate() {
+            *v = if salt == 1 && i % 3 == 0 { f32::NAN } else { -7.25 - 1.5 * i as f32 + 1e3 * salt as f32 };
+        }
+    }
+}
+impl Junk for Array1<usize> {
+    fn junk(&mut self, salt: usize) {
+        for (i, v) in self.iter_mut().enumerate() {
+            *v = 9000 + 10 * salt + i;
+        }
+    }
+}
+impl Junk for Array1<bool> {
+    fn junk(&mut self, salt: usize) {
+        for (i, v) in self.iter_mut().enumerate() {
+            *v = (i + salt) % 2 == 0;
+        }
+    }
+}
+impl Junk for Array1<Pr> {
+    fn junk(&mut self, salt: usize) {
+        for (i, v) in self.iter_mut().enumerate() {
+            *v = Pr::new(if (i + salt) % 2 == 0 { 0.75 } else { 0.0625 });
+        }
+    }
+}
+
 struct Cmp<'a> {
     kind: &'a str,
     margin: &'a dyn Fn(ArrayView1<f64>) -> f64,
@@ -103,7 +157,7 @@ impl<'a> Cmp<'a> {
 /// all checks for one (model, batch)
 pub fn sweep_case<M, T>(em: &mut Em, rng: &mut Rng, kind: &str, fit_id: u64, m: &M, batch: &Array2<f64>, conv: &dyn Fn(&T) -> Vec<Vec<V>>, margin: &dyn Fn(ArrayView1<f64>) -> f64)
 where
-    T: AsTargets,
+    T: AsTargets + Junk,
     M: PredictInplace<Array2<f64>, T> + for<'v> PredictInplace<ArrayView2<'v, f64>, T>,
 {
     let n = batch.nrows();
@@ -195,6 +249,27 @@ where
             let mut t5 = <M as PredictInplace<Array2<f64>, T>>::default_target(m, batch);
             <M as PredictInplace<Array2<f64>, T>>::predict_inplace(m, batch, &mut t5);
             ctx.require(bits(&conv(&t5)) == want, "forms_agree", kind, || "predict_inplace differs from predict(&records)".to_string());
+            // in place into a buffer supplied by the caller: pre-filled with junk (finite; with NaNs) ...
+            for salt in 0..2 {
+                let mut t6 = <M as PredictInplace<Array2<f64>, T>>::default_target(m, batch);
+                t6.junk(salt);
+                <M as PredictInplace<Array2<f64>, T>>::predict_inplace(m, batch, &mut t6);
+                ctx.require(bits(&conv(&t6)) == want, "inplace_into_supplied_buffer", kind, || format!("predict_inplace into a pre-filled buffer (junk {}) differs from predict(&records): {:?} vs {:?}", salt, conv(&t6), base));
+            }
+            // ... and reused from a previous batch of the same size (the rows in reverse order)
+            if n > 0 {
+                let idx: Vec<usize> = (0..n).rev().collect();
+                let other = batch.select(Axis(0), &idx);
+                let mut t7 = <M as PredictInplace<Array2<f64>, T>>::default_target(m, &other);
+                <M as PredictInplace<Array2<f64>, T>>::predict_inplace(m, &other, &mut t7);
+                <M as PredictInplace<Array2<f64>, T>>::predict_inplace(m, batch, &mut t7);
+                ctx.require(bits(&conv(&t7)) == want, "inplace_into_supplied_buffer", kind, || format!("predict_inplace into the buffer of a previous batch differs from predict(&records): {:?} vs {:?}", conv(&t7), base));
+                // and on the view form
+                let mut t8 = <M as PredictInplace<ArrayView2<f64>, T>>::default_target(m, &batch.view());
+                t8.junk(0);
+                <M as PredictInplace<ArrayView2<f64>, T>>::predict_inplace(m, &batch.view(), &mut t8);
+                ctx.require(bits(&conv(&t8)) == want, "inplace_into_supplied_buffer", kind, || "predict_inplace(&view) into a pre-filled buffer differs from predict(&records)".to_string());
+            }
             // a second call on the same input: the model carries no state across calls
             let again: T = <M as Predict<&Array2<f64>, T>>::predict(m, batch);
             ctx.require(bits(&conv(&again)) == want, "repeatable", kind, || "a second predict(&records) on the same batch differs".to_string());
@@ -209,7 +284,7 @@ where
 
 fn sweep_model<M, T>(em: &mut Em, rng: &mut Rng, kind: &str, m: &M, pool: &Array2<f64>, conv: &dyn Fn(&T) -> Vec<Vec<V>>, margin: &dyn Fn(ArrayView1<f64>) -> f64)
 where
-    T: AsTargets,
+    T: AsTargets + Junk,
     M: PredictInplace<Array2<f64>, T> + for<'v> PredictInplace<ArrayView2<'v, f64>, T>,
 {
     let nb = if em.thorough() { 6 } else { 3 };
@@ -570,6 +645,12 @@ fn wrapper_mt(em: &mut Em, rng: &mut Rng, w: &MultiTargetModel<Array2<f64>, f64>
             let ds = w.predict(batch.clone());
             ctx.require(ds.records() == &batch, "dataset_form_returns_records", kind, || "records changed".to_string());
             ctx.require(ds.targets() == &out, "forms_agree", kind, || "predict(records) differs from predict(&records)".to_string());
+            for salt in 0..2 {
+                let mut y = w.default_target(&batch);
+                y.junk(salt);
+                w.predict_inplace(&batch, &mut y);
+                ctx.require(y.dim() == out.dim() && y.iter().zip(out.iter()).all(|(a, b)| a.to_bits() == b.to_bits()), "inplace_into_supplied_buffer", kind, || format!("pre-filled buffer gives {:?}, predict(&records) {:?}", y, out));
+            }
             String::new()
         });
     }
@@ -608,6 +689,12 @@ fn wrappers_svm(em: &mut Em, rng: &mut Rng) {
             ctx.require(out.len() == n, "one_output_per_row", kind, || format!("{} outputs for {} rows", out.len(), n));
             if out.len() != n {
                 return String::new();
+            }
+            for salt in 0..2 {
+                let mut y = w.default_target(&batch);
+                y.junk(salt);
+                w.predict_inplace(&batch, &mut y);
+                ctx.require(y == out, "inplace_into_supplied_buffer", kind, || format!("pre-filled buffer gives {:?}, predict(&records) {:?}", y, out));
             }
             let probs: Vec<Array1<Pr>> = copies.iter().map(|(_, m)| m.predict(&batch)).collect();
             for i in 0..n {
@@ -660,6 +747,12 @@ fn wrappers_svm(em: &mut Em, rng: &mut Rng) {
                         ctx.require(out.len() == batch.nrows(), "one_output_per_row", kind, || format!("{} outputs for {} rows", out.len(), batch.nrows()));
                         if out.len() != batch.nrows() {
                             return String::new();
+                        }
+                        for salt in 0..2 {
+                            let mut y = pl.default_target(&batch);
+                            y.junk(salt);
+                            pl.predict_inplace(&batch, &mut y);
+                            ctx.require(y == out, "inplace_into_supplied_buffer", kind, || format!("pre-filled buffer gives {:?}, predict(&records) {:?}", y, out));
                         }
                         let mut idx: Vec<usize> = (0..out.len()).collect();
                         idx.sort_by(|a, b| dec[*a].partial_cmp(&dec[*b]).unwrap());
